@@ -344,6 +344,9 @@ func (w *cworld) direct() {
 					}
 					at := sn
 					var reqRoot []byte
+					if mode == "req" && len(sn.root) == 0 {
+						continue // an empty root cannot be requested (it means "latest")
+					}
 					if mode == "req" {
 						reqRoot = sn.root
 					} else {
@@ -457,8 +460,8 @@ func (w *cworld) query() {
 		for si, sn := range w.snaps {
 			for _, compressed := range []bool{false, true} {
 				for _, explicit := range []bool{true, false} {
-					if !explicit && si != last {
-						continue // no root in the request = the latest root
+					if (!explicit && si != last) || (explicit && len(sn.root) == 0) {
+						continue // no (or an empty) root in the request = the latest root
 					}
 					var reqRoot []byte
 					if explicit {
@@ -570,7 +573,7 @@ func (w *cworld) accountMsg() {
 		for si, sn := range w.snaps {
 			for _, compressed := range []bool{false, true} {
 				for _, explicit := range []bool{true, false} {
-					if !explicit && si != last {
+					if (!explicit && si != last) || (explicit && len(sn.root) == 0) {
 						continue
 					}
 					var reqRoot []byte
